@@ -290,6 +290,13 @@ class SymSeq:
         c.assume(z3.ForAll([j], z3.Implies(guard, sh.eq(fn(j), v))))
         return SymSeq(self.n, fn, sh, self.name + ".snap")
 
+    def __radd__(self, other):               # [a, b] + abstract_list
+        o = self._as_seq(other)
+        if self.elem_shape is not None and o.elem_shape is None:
+            o.elem_shape = self.elem_shape
+        n, at, sh = o._concat(self)
+        return SymSeq(n, at, sh, "+" + self.name)
+
     def __iadd__(self, other):
         o = self._as_seq(other)
         if o.name != "literal":
